@@ -526,6 +526,9 @@ DATA 16383
 table
 DATA -1
 DATA 2147483647
+DATA -2147483648
+DATA -1000000000
+DATA 3000000000
 FUNC f
 LDAC -2147483648
 LDBC 4294967295
@@ -648,6 +651,7 @@ def xcmp_cli_stage(chk, exe, pid):
         "refs2.x": "var v;\nproc main() is { v := 0; 0(v + \"abc\") }\n",
         "refs3.x": "var v;\nproc main() is { v := 0; 0(\"abc\" + v) }\n",
         "refs4.x": "var v;\nproc main() is { v := 100000; 0((v - 99999) + (\"x\" - \"x\")) }\n",
+        "refs5.x": "var v;\nproc main() is { v := 2000000001; 0((v + (-2000000000)) + ((v - 2147483647) + 147483646)) }\n",
     }
     for name, text in own.items():
         open(os.path.join(d, name), "w").write(text)
